@@ -90,9 +90,13 @@ def pool():
     ]
     # digits with a line end, carriage return or blank before or after them (none of these is a numeral)
     texts += ["12\n", "0\n", "12\n\n", "\n12", "12\r", "12\r\n", "1\n2", "12\x0b", "12\x0c", "\t12", "12\x1c", "12\x85", "12\u2028", "１２", "1２"]
-    # numerals longer than the interpreter's own limit for int <-> str conversion (4300 digits)
-    texts += ["1" * 4300, "1" * 4301, "9" * 5000, "0" * 4400 + "7"]
     return [S(t) for t in texts]
+
+
+def long_numerals():
+    """numerals longer than the interpreter's own limit for int <-> str conversion (4300 digits); kept out of pool():
+    Z3's string solver does not come back from replace / contains over operands of this length"""
+    return [S(t) for t in ("1" * 4300, "1" * 4301, "9" * 5000, "0" * 4400 + "7")]
 
 
 def index_pool():
